@@ -14,6 +14,7 @@ import (
 	"strings"
 	"time"
 
+	"golang.org/x/tools/go/packages"
 	"golang.org/x/tools/go/ssa"
 )
 
@@ -80,10 +81,19 @@ type replayOutcome struct {
 }
 
 // nativeReplay runs the harness natively on the counterexample.
+var loadedPkgs []*packages.Package
+
 func nativeReplay(s *Spec, prog *ssa.Program, es EntrySpec, file string, entries []EntrySpec) replayOutcome {
 	ov, err := overlayFor(s, true)
 	if err != nil {
 		return replayOutcome{Err: err.Error()}
+	}
+	for _, rel := range s.Instrument {
+		src, err := instrumentFile(loadedPkgs, rel)
+		if err != nil {
+			return replayOutcome{Err: err.Error()}
+		}
+		ov[filepath.Join(repoDir, rel)] = src
 	}
 	fn := findFunc(prog, es.Func)
 	if fn == nil {
@@ -164,7 +174,7 @@ func firstLineWith(s string, subs ...string) string {
 func writeReplayFile(s *Spec, es EntrySpec, v *Violation, tier int) string {
 	obj := map[string]any{
 		"property": s.ID, "entry": es.Name, "func": es.Func, "assert": v.Assert, "finding": v.Finding,
-		"vars": v.Vars, "bytes": v.Bytes, "decisions": v.Trace, "where": v.Where, "msg": v.Msg, "tier": tier,
+		"vars": v.Vars, "bytes": v.Bytes, "decisions": v.Trace, "schedule": v.Sched, "where": v.Where, "msg": v.Msg, "tier": tier,
 	}
 	data, _ := json.MarshalIndent(obj, "", " ")
 	h := sha1.Sum(data)
@@ -200,7 +210,8 @@ func runCheck(id, tier string, seed int, replayPath, only string, verbose, noRep
 		fmt.Fprintf(os.Stderr, "check %s: %v\n", id, err)
 		return 2
 	}
-	prog, _, err := loadProgram(spec)
+	prog, pkgs, err := loadProgram(spec)
+	loadedPkgs = pkgs
 	if err != nil {
 		fmt.Fprintf(os.Stderr, "check %s: cannot load /repo: %v\n", id, err)
 		writeEvidence(spec, tier, seed, nil, nil, time.Since(t0), "load failure: "+err.Error(), 0, nil)
